@@ -1437,6 +1437,8 @@ func hasOnPathSet(p *Program, comp []*ssa.Function) (bool, string) {
 			// the value was new; the removal (deferred) and the decision stay here
 			if ok := onPathViaHelper(f, in); ok {
 				guarded[f] = true
+			} else if onPathViaList(f, in) {
+				guarded[f] = true
 			}
 			continue
 		}
@@ -3247,4 +3249,181 @@ func sameKeyValue(x, y ssa.Value) bool {
 		}
 	}
 	return true
+}
+
+// The path kept as a list instead of a set: a field of slice type with three
+// small operations — a scan that says whether a value is in it, an append,
+// and dropping the last element.
+
+// listScan: h reports whether its argument equals some element of the slice
+// it is applied to (true only behind such a comparison; false otherwise).
+func listScan(h *ssa.Function) bool {
+	if h == nil || len(h.Blocks) == 0 || len(h.Params) != 2 || h.Signature.Results().Len() != 1 || !isBoolType(h.Signature.Results().At(0).Type()) {
+		return false
+	}
+	if _, isSl := h.Params[0].Type().Underlying().(*types.Slice); !isSl {
+		return false
+	}
+	var eq *ssa.BinOp
+	for _, b := range h.Blocks {
+		for _, ins := range b.Instrs {
+			bo, ok := ins.(*ssa.BinOp)
+			if !ok || bo.Op != token.EQL {
+				continue
+			}
+			elem := func(v ssa.Value) bool {
+				ld, ok := v.(*ssa.UnOp)
+				if !ok {
+					return false
+				}
+				ia, ok := ld.X.(*ssa.IndexAddr)
+				return ok && ia.X == ssa.Value(h.Params[0])
+			}
+			if (elem(bo.X) && bo.Y == ssa.Value(h.Params[1])) || (elem(bo.Y) && bo.X == ssa.Value(h.Params[1])) {
+				eq = bo
+			}
+		}
+	}
+	if eq == nil {
+		return false
+	}
+	sawTrue := false
+	for _, b := range h.Blocks {
+		ret, ok := terminator(b).(*ssa.Return)
+		if !ok {
+			continue
+		}
+		c, ok := returnOperand(ret, 0).(*ssa.Const)
+		if !ok || c.Value == nil || c.Value.Kind() != constant.Bool {
+			return false
+		}
+		if constant.BoolVal(c.Value) {
+			sawTrue = true
+		}
+	}
+	return sawTrue
+}
+
+// listPush / listPop: h appends its argument to (drops the last element of)
+// the slice its receiver points to.
+func listPush(h *ssa.Function) bool {
+	if h == nil || len(h.Params) != 2 {
+		return false
+	}
+	for _, b := range h.Blocks {
+		for _, ins := range b.Instrs {
+			st, ok := ins.(*ssa.Store)
+			if !ok || st.Addr != ssa.Value(h.Params[0]) {
+				continue
+			}
+			if ap, ok := isBuiltinCall(st.Val, "append"); ok {
+				if ld, ok := ap.Call.Args[0].(*ssa.UnOp); ok && ld.X == ssa.Value(h.Params[0]) {
+					if vals, known := varargsOf(ap.Call.Args[1]); known && len(vals) == 1 && vals[0] == ssa.Value(h.Params[1]) {
+						return true
+					}
+				}
+			}
+		}
+	}
+	return false
+}
+
+func listPop(h *ssa.Function) bool {
+	if h == nil || len(h.Params) != 1 {
+		return false
+	}
+	for _, b := range h.Blocks {
+		for _, ins := range b.Instrs {
+			st, ok := ins.(*ssa.Store)
+			if !ok || st.Addr != ssa.Value(h.Params[0]) {
+				continue
+			}
+			sl, ok := st.Val.(*ssa.Slice)
+			if !ok || sl.Low != nil || sl.High == nil {
+				continue
+			}
+			ld, ok := sl.X.(*ssa.UnOp)
+			if !ok || ld.X != ssa.Value(h.Params[0]) {
+				continue
+			}
+			base, k := linear(sl.High)
+			if lc, ok := isBuiltinCall(base, "len"); ok && k == -1 {
+				if l2, ok := lc.Call.Args[0].(*ssa.UnOp); ok && l2.X == ssa.Value(h.Params[0]) {
+					return true
+				}
+			}
+		}
+	}
+	return false
+}
+
+// onPathViaList: f asks the scan whether the value is on the path and returns
+// without recursing when it is, pushes it before every call back into the
+// component, and defers the pop — all on one field.
+func onPathViaList(f *ssa.Function, in map[*ssa.Function]bool) bool {
+	var push *ssa.Call
+	field := ""
+	for _, b := range f.Blocks {
+		for _, ins := range b.Instrs {
+			c, ok := ins.(*ssa.Call)
+			if !ok || !listPush(c.Call.StaticCallee()) {
+				continue
+			}
+			if k := fieldKey(c.Call.Args[0]); k != "" {
+				push, field = c, k
+			}
+		}
+	}
+	if push == nil {
+		return false
+	}
+	tested := false
+	for _, b := range f.Blocks {
+		for _, ins := range b.Instrs {
+			c, ok := ins.(*ssa.Call)
+			if !ok || !listScan(c.Call.StaticCallee()) || !dominatesInstr(c, push) {
+				continue
+			}
+			ld, ok := c.Call.Args[0].(*ssa.UnOp)
+			if !ok || fieldKey(ld.X) != field || !sameKeyValue(c.Call.Args[1], push.Call.Args[1]) {
+				continue
+			}
+			for _, ref := range *c.Referrers() {
+				iff, ok := ref.(*ssa.If)
+				if !ok {
+					continue
+				}
+				stop := iff.Block().Succs[0]
+				if _, isRet := terminator(stop).(*ssa.Return); !isRet {
+					continue
+				}
+				rec := false
+				for _, i2 := range stop.Instrs {
+					if cc := callOf(i2); cc != nil && cc.StaticCallee() != nil && in[cc.StaticCallee()] {
+						rec = true
+					}
+				}
+				if !rec {
+					tested = true
+				}
+			}
+		}
+	}
+	removed := false
+	for _, b := range f.Blocks {
+		for _, ins := range b.Instrs {
+			if d, ok := ins.(*ssa.Defer); ok && listPop(d.Call.StaticCallee()) && len(d.Call.Args) == 1 && fieldKey(d.Call.Args[0]) == field && dominatesInstr(push, d) {
+				removed = true
+			}
+		}
+	}
+	dominates := true
+	for _, b := range f.Blocks {
+		for _, ins := range b.Instrs {
+			if cc := callOf(ins); cc != nil && cc.StaticCallee() != nil && in[cc.StaticCallee()] && !dominatesInstr(push, ins) {
+				dominates = false
+			}
+		}
+	}
+	return tested && removed && dominates
 }
